@@ -419,6 +419,8 @@ H("streams_stop_then_reset_credit_native", ["C06"], "replay-only", "connection::
   [("buffered", "u8"), ("extra", "u8")], 4, [], ["RecvStream::stop", "StreamsState::received_reset", "StreamsState::add_read_credits"], "native demonstration / replay body: credit after stop + RESET_STREAM")
 H("conn_handle_coalesced_credit_native", ["C07"], "replay-only", "connection::handle_coalesced_credit_native",
   [("k", "u8")], 4, [], ["Connection::handle_event", "Connection::handle_coalesced"], "native replay body of E2 queries e2_handle_coalesced_credit / e2_handle_coalesced_loop_body_slice")
+H("conn_init_0rtt_native", ["C04", "C14"], "replay-only", "connection::init_0rtt_native",
+  [("x", "u8")], 4, [], ["Connection::init_0rtt"], "native replay body of E2 query e2_init_0rtt_scrubs_params")
 H("conn_peer_params_cid_auth_native", ["C14", "C04"], "replay-only", "connection::peer_params_cid_auth_native",
   [("server", "bool"), ("which", "u8")], 4, [], ["Connection::handle_peer_params"], "native replay body of E2 query e2_peer_params_cid_auth")
 
